@@ -66,7 +66,7 @@ func wireValueVars(w *spec.WCase) string {
 			e := &es[i]
 			switch e.Kind {
 			case "value", "ivalue":
-				if !seen[e.Var] {
+				if !seen[e.Var] && e.VarPkg == "" {
 					seen[e.Var] = true
 					fmt.Fprintf(&sb, "var %s = %s(%d)\n\n", e.Var, mk(e.Type), e.H)
 				}
@@ -102,6 +102,14 @@ func wireElem(w *spec.WCase, e *spec.WElem) string {
 	case "bind":
 		return fmt.Sprintf("wire.Bind(new(%s), new(%s))", c.Expr(e.Iface, ""), c.Expr(e.Impl, ""))
 	case "value":
+		if e.VarPkg != "" {
+			x := c.Ext(e.VarPkg)
+			n := x.Name
+			if x.Alias != "" {
+				n = x.Alias
+			}
+			return "wire.Value(" + n + "." + e.Var + ")"
+		}
 		return "wire.Value(" + e.Var + ")"
 	case "ivalue":
 		return fmt.Sprintf("wire.InterfaceValue(new(%s), %s)", c.Expr(e.Iface, ""), e.Var)
